@@ -12,9 +12,12 @@ package main
 // ops: set_exception_handler(v) for every callable form v of the language (and null),
 // restore_exception_handler(), register_shutdown_function(closure), set_error_handler(closure).
 // The reference model is PHP's handler stack; it only decides the *expectation class* of a cell:
-// effective handler none / returns / throws  -> the statement applies (error ending),
-// effective handler calls exit(n)             -> control (the script chose its status; recorded only).
-// The requirement itself is the statement's and is the same for every judged cell.
+// effective handler calls exit(n) -> control (the script chose its status; recorded only).
+// Whether the statement applies is decided by observation: a cell in which a user handler actually ran
+// for the throwable and returned is a control as well (the handler handled it; only "earlier output is
+// flushed" is still required). Every other cell - no handler set at that point, reset to null, restored,
+// a value origami does not invoke, or a handler that itself throws - ends with an uncaught throwable and
+// must print a diagnostic and exit non-zero after flushing earlier output.
 //
 // Reduction needs no re-execution: the family is closed under sub-histories, so a failing cell
 // is reduced by table lookup to its shortest failing sub-history (top-level site preferred);
@@ -218,6 +221,7 @@ type hSeen struct {
 	Obs     g2Obs
 	Clauses []string // violated clauses of a judged cell
 	Ran     bool     // a user handler's marker line is on stdout
+	Threw   bool     // ... and it is the marker of the handler that itself throws
 }
 
 func hCellKey(hist, site, ending, prior, ext string) string {
@@ -273,20 +277,34 @@ func (r *g2Result) reportHandlers(c *ev.Check) {
 		base[k] = append(base[k], f.Clause)
 	}
 	tab := map[string]*hSeen{}
-	ran := map[string]bool{} // hist|site|ending|ext -> handler marker seen under any prior mode
+	ran := map[string]bool{}   // hist|site|ending|ext -> handler marker seen under any prior mode
+	threw := map[string]bool{} // ... marker of the throwing handler
 	for i := range r.HSeen {
 		s := &r.HSeen[i]
 		tab[hCellKey(s.Cell.Hist, s.Cell.Site, s.Cell.Ending, s.Cell.Prior, s.Cell.Ext)] = s
 		if s.Ran {
 			ran[s.Cell.Hist+"|"+s.Cell.Site+"|"+s.Cell.Ending+"|"+s.Cell.Ext] = true
 		}
+		if s.Threw {
+			threw[s.Cell.Hist+"|"+s.Cell.Site+"|"+s.Cell.Ending+"|"+s.Cell.Ext] = true
+		}
 	}
-	own := func(s *hSeen) []string { // clauses not already explained by the base cell
+	ranOf := func(s *hSeen) bool { return ran[s.Cell.Hist+"|"+s.Cell.Site+"|"+s.Cell.Ending+"|"+s.Cell.Ext] }
+	// handled: a user handler consumed the throwable and returned. Such a script did not "end with an
+	// uncaught throwable" as far as origami is concerned (it may even carry on): a control, except that
+	// earlier output must still reach stdout. A handler that itself throws leaves an uncaught throwable.
+	handled := func(s *hSeen) bool {
+		return ranOf(s) && !threw[s.Cell.Hist+"|"+s.Cell.Site+"|"+s.Cell.Ending+"|"+s.Cell.Ext]
+	}
+	own := func(s *hSeen) []string { // judged clauses not already explained by the base cell
 		var out []string
 		b := base[s.Cell.Ending+"|"+s.Cell.Prior+"|"+s.Cell.Ext]
 		lost := has(s.Clauses, "flush")
 		for _, cl := range s.Clauses {
 			if has(b, cl) {
+				continue
+			}
+			if handled(s) && cl != "flush" {
 				continue
 			}
 			if cl == "diagnostic" && lost {
@@ -298,8 +316,6 @@ func (r *g2Result) reportHandlers(c *ev.Check) {
 		sort.Strings(out)
 		return out
 	}
-	ranOf := func(s *hSeen) bool { return ran[s.Cell.Hist+"|"+s.Cell.Site+"|"+s.Cell.Ending+"|"+s.Cell.Ext] }
-
 	type grp struct {
 		ran     bool
 		site    string
@@ -380,6 +396,17 @@ func (r *g2Result) reportHandlers(c *ev.Check) {
 		groups[g] = append(groups[g], member{rh, s})
 	}
 	c.Set("g2h_failing_cells_explained_by_base_finding", collapsed)
+	nHandled, nHandled0 := 0, 0
+	for i := range r.HSeen {
+		if s := &r.HSeen[i]; s.Cell.Expect == "error" && handled(s) {
+			nHandled++
+			if s.Obs.Status == 0 {
+				nHandled0++
+			}
+		}
+	}
+	c.Set("g2h_control_cells_user_handler_consumed_the_throwable", nHandled)
+	c.Set("g2h_control_cells_user_handler_consumed_the_throwable_status_0", nHandled0)
 
 	for g, ms := range groups {
 		label := "handler-ran"
